@@ -523,8 +523,13 @@ class WebSocketReader:
 
                 if self._payload_bytes_to_read != 0:
                     # If we don't have a complete frame, we need to save the
-                    # data for the next call to feed_data.
-                    self._payload_fragments.append(data_cstr[f_start_pos:f_end_pos])
+                    # data for the next call to feed_data. (Nothing to save if
+                    # the read ended with the frame header: an empty fragment
+                    # would not count as buffered payload and never be dropped.)
+                    if f_end_pos > f_start_pos:
+                        self._payload_fragments.append(
+                            data_cstr[f_start_pos:f_end_pos]
+                        )
                     if (
                         self._max_fragments
                         and len(self._payload_fragments) > self._max_fragments
